@@ -570,14 +570,12 @@ func generate(thorough bool) []scenario {
 	if !thorough {
 		return out
 	}
-	// thorough block F: n = 5 full product of timing x rank x bump on every shape (mixed palette) + deactivation positions
+	// thorough block F: n = 5, every shape x timing x bump position (rank asc, mixed palette)
 	for _, sh := range shapes(5, 5) {
 		for _, tm := range timings {
-			for _, rk := range ranks {
-				for bump := 0; bump < 5; bump++ {
-					d := dims{tm, rk, bump, "mixed", 0}
-					add(fmt.Sprintf("F5%s/%s", shapeName(sh), d), oneDID(0, 0, sh, d))
-				}
+			for bump := 1; bump < 5; bump++ {
+				d := dims{tm, "asc", bump, "mixed", 0}
+				add(fmt.Sprintf("F5%s/%s", shapeName(sh), d), oneDID(0, 0, sh, d))
 			}
 		}
 	}
